@@ -7,6 +7,8 @@ from mc import fsm
 from mc.world import make_shot, make_calc, step_trace, nextafter, BASE
 
 PID = 'C03'
+# thread bodies (defined with engine E4, mc/checks/c10_sched.py) that exercise this property's code; explored after the parts below
+SCHED_SETS = [('fire||fire', 'call')]
 LEVEL = 'model_checking'
 ENGINE = 'E1+E3'
 TECHNIQUE = 'exhaustive enumeration of the alignment classes of the range end against the integration lattice of the real solver (one representative per order cell, +-1 ulp) x recording steps, and of all step sequences up to depth n through the real record filter, against a one-row-per-multiple reference model'
